@@ -406,6 +406,10 @@ def reject_probes(rec):
         if isinstance(bad, str) and bad:
             must_raise(f"Module.{bad} = Signal", lambda b=bad: setattr(h.Module(name="P"), b, h.Signal()), "ill-formed-name-accepted")
             must_raise(f"Module.add(Signal(name={bad!r}))", lambda b=bad: h.Module(name="P").add(h.Signal(name=b)), "ill-formed-name-accepted")
+            must_raise(f"Bundle.{bad} = Signal", lambda b=bad: setattr(h.Bundle(name="P"), b, h.Signal()), "ill-formed-name-accepted")
+            must_raise(f"Bundle.{bad} = bundle instance", lambda b=bad: setattr(h.Bundle(name="P"), b, h.BundleInstance(of=h.Diff)), "ill-formed-name-accepted")
+            must_raise(f"class body `{bad} = h.Signal()` (bundle)", lambda b=bad: h.bundle(type("CbUnder", (), {b: h.Signal(), "ok": h.Signal()})), "ill-formed-name-accepted")
+            must_raise(f"class body `{bad} = h.Signal()` (module)", lambda b=bad: h.module(type("CbUnder", (), {b: h.Signal(), "ok": h.Signal()})), "ill-formed-name-accepted")
     # the name of the Module / Bundle itself is not an attribute slot
     for val in (h.Signal(), h.Input(), h.Instance(of=lib()["E"]()), 5):
         must_raise(f"Module.name = {type(val).__name__}", lambda v=val: setattr(h.Module(name="P"), "name", v), "reserved-name-accepted:setattr")
